@@ -13,11 +13,21 @@ var balKinds = []string{"RedBlackTree", "AVLTree", "BTree"}
 // phases (sorted, reverse, zig-zag, sliding window, one-sided drain, churn)
 // that turn latent imbalance into an observable path-length or work violation.
 func runBalanceCase(c *core.Ctx, kind string) {
-	d := IntDom(c.R.Range(4, 12))
+	if (c.Index/3)%11 == 7 {
+		// string keys (comparators with ties between spellings; documents from
+		// other producers loaded in the middle of the history)
+		c.Count("keytype:string", 1)
+		runBalanceCaseOf(c, kind, StrDom(c.R.Range(4, 12)), strKey)
+		return
+	}
+	runBalanceCaseOf(c, kind, IntDom(c.R.Range(4, 12)), intKey)
+}
+
+func runBalanceCaseOf[K comparable](c *core.Ctx, kind string, d *Dom[K], keyOf func(int) K) {
 	a := newKVByKind(c, kind, d)
 	m := NewKVMon(c, a, d)
 	m.Balance = true
-	drv := &kvDriver[int]{c: c, m: m, keyOf: intKey}
+	drv := &kvDriver[K]{c: c, m: m, keyOf: keyOf}
 	r := c.R
 	large := 3000
 	if c.Tier == "thorough" {
@@ -47,7 +57,7 @@ func runBalanceCase(c *core.Ctx, kind string) {
 		// sorted build to a large size, then probes everywhere
 		n := sizeClass(r, large)
 		for _, i := range orderFamily(r, n, r.Intn(4)) {
-			drv.put(intKey(i))
+			drv.put(keyOf(i))
 		}
 		for j := 0; j < 200; j++ {
 			drv.probe()
@@ -110,6 +120,7 @@ func init() {
 				f.atLeast("walk:"+k, 30000)
 			}
 			exhaustiveFloors(tier, f)
+			f.atLeast("keytype:string", 300)
 			f.atLeast("obs:wide-btree-cases", wideBTreeCases)
 			f.atLeast("walk:BTree-height>=4", 1000)
 			f.atLeast("walk:RedBlackTree-ratio>1.5", 100)
